@@ -13,7 +13,7 @@ def _self_test(chk, drv, views, rules_path):
     picks, origs, want = [], [], set()
     for decl, flip in (("right", False), ("laterIndef", True)):
         for r in rows:
-            if (r["L"] == [1] and r["shape"] == "short" and r["red"] and r["dat"] and r["decl"] == decl
+            if (r["L"] == [1] and r["shape"] == "short" and r["red"] and r["datf"] == "list" and r["decl"] == decl
                     and "babbage" in r["eras"]):
                 if r["accept"] == flip:
                     raise vlib.MachineryError("self-test: reference row %s has spec verdict %r" % (decl, r["accept"]))
@@ -21,7 +21,7 @@ def _self_test(chk, drv, views, rules_path):
                 q["accept"] = flip
                 picks.append(q)
                 origs.append(r)
-                want.add("rule:era=babbage:L=1:shape=short:red=1:dat=1:decl=%s:at=func" % decl)
+                want.add("rule:era=babbage:L=1:shape=short:red=1:dat=list:decl=%s:at=func" % decl)
                 break
     if len(picks) != 2:
         raise vlib.MachineryError("self-test: reference rows (L = {V2}, short, redeemers and datums) not in the TLC output")
@@ -53,12 +53,13 @@ def run(chk, replay=None):
     chk.rule = ("TLC evaluates LangViews.tla: for every subset L of the Plutus languages and every cost-model shape the "
                 "language-views value as an abstract CBOR token sequence (map head, keys in length-then-lexicographic order of "
                 "their encodings, PlutusV1 key and value double-wrapped with an indefinite list, later languages a definite "
-                "list), and the decision table of the rule over (redeemers?, datums?, declared in {absent, right, 12 near-miss "
-                "terms}); it proves key-order totality, V1-last, wrapping, injectivity in L and that every near-miss differs "
+                "list), and the decision table of the rule over (redeemers?, datum field in {absent, present-empty list, "
+                "present-empty tag-258 set, non-empty list, non-empty tag-258 set}, declared in {absent, right, 12 near-miss "
+                "terms}) -- datum bytes enter the hash only when the collection is non-empty; it proves key-order totality, V1-last, wrapping, injectivity in L and that every near-miss differs "
                 "exactly when it applies. The tokens are rendered by an independent writer and compared with "
                 "common.EncodeLangViews; every table row is executed on real Alonzo..Dijkstra transactions with the declared "
                 "hash computed (Blake2b-256) in the driver; a case is one (L, shape, values, models) view or one (era, L, shape, "
-                "redeemers, datums, declared) row; all are non-trivial")
+                "redeemers, datum field, declared) row; all are non-trivial")
     chk.assumptions = [
         "Blake2b-256 is collision free (hashes are terms in the model; the driver checks that the real declared hash equals "
         "the real right hash exactly when the model accepts)",
